@@ -1,14 +1,138 @@
 /-
   SpecKitV.Drv.ExtResultQueries — driver operations of the generated region `ResultQueries` (extension point: `dispatch op` returns
-  `some handler` for the operations this file serves).  Mathlib-free.
+  `some handler` for the operations this file serves).  Mathlib-free.  Every operation executes a GENERATED definition
+  (`Gen/ResultQueries.lean`) at `Float` / on strings:
+
+    rq_assemble nf nrows (i re im p2 p3 p4 p5 p6 p7)*        -> XX | YY | Re XY | Im XY | S12 | S2 | M2 | compute_t
+    rq_getattr  auto|cross  nkeys key*  nreads name*          -> per read  <value tag or RAISE>#<sorted cached names, comma separated>
+    rq_meas     grid  r|c  table(s)  s x | a xs               -> none | sR v | sC re im | aR v* | aC (re im)*
+    rq_df       nnames (name  E | C | O | A:d0,d1,…)*         -> none | <index name> <column names in order>
+    rq_dir      ndefault name*  nkeys key*                    -> the advertised names in order
 -/
 import SpecKitV.Drv.Base
+import SpecKitV.Gen.ResultQueries
 
 namespace Drv.ExtResultQueries
 open Drv
 
+def strArr : M (Array String) := do
+  let n ← nat
+  let mut a := Array.mkEmpty n
+  for _ in [0:n] do
+    a := a.push (← tok)
+  return a
+
+def row : M (Np.Row8 Float) := do
+  let i ← int
+  let re ← flt
+  let im ← flt
+  let p2 ← flt
+  let p3 ← flt
+  let p4 ← flt
+  let p5 ← flt
+  let p6 ← flt
+  let p7 ← flt
+  return ⟨i, ⟨re, im⟩, p2, p3, p4, p5, p6, p7⟩
+
+def arrOut (a : Arr Float) : String := joinF ((List.range a.n).map a.get)
+
+def opAssemble : M String := do
+  let nf ← nat
+  let nrows ← nat
+  let mut rows : Array (Np.Row8 Float) := Array.mkEmpty nrows
+  for _ in [0:nrows] do
+    rows := rows.push (← row)
+  let g := Gen.compute_assemble (α := Float) nf rows.toList (fun _ => nan) (fun _ => ⟨nan, nan⟩)
+  -- evaluate each result array once (the generated arrays are closures over the scatter chain)
+  let xy : Arr (Cx Float) := g.XY
+  return " | ".intercalate [arrOut g.XX, arrOut g.YY, arrOut ⟨xy.n, fun k => (xy.get k).re⟩, arrOut ⟨xy.n, fun k => (xy.get k).im⟩,
+    arrOut g.S12, arrOut g.S2, arrOut g.M2, arrOut g.compute_t]
+
+def opGetattr : M String := do
+  let mode ← tok
+  let keys ← strArr
+  let reads ← strArr
+  let touched := if mode == "cross" then Gen.touchedCross else Gen.touchedAuto
+  let eval : String → String := fun n => "F:" ++ n
+  let data : String → Option String := fun n => if keys.contains n then some ("D:" ++ n) else none
+  let mut cache : List (String × String) := []
+  let mut out : Array String := #[]
+  for n in reads do
+    match Gen.getattr_protocol eval touched data cache n with
+    | none => out := out.push ("RAISE#" ++ ",".intercalate (Np.sortedSet (cache.map (·.1))))
+    | some (v, c) =>
+      cache := c
+      out := out.push (v ++ "#" ++ ",".intercalate (Np.sortedSet (cache.map (·.1))))
+  return " ".intercalate out.toList
+
+def opMeas : M String := do
+  let grid ← fltArr
+  let kind ← tok
+  let tbl : Np.Table Float ←
+    if kind == "c" then do
+      let re ← fltArr
+      let im ← fltArr
+      pure (Np.Table.cplx ((List.range re.size).map (fun k => (⟨re.getD k nan, im.getD k nan⟩ : Cx Float))))
+    else do
+      let y ← fltArr
+      pure (Np.Table.real y.toList)
+  let qk ← tok
+  let q : Np.Query Float ←
+    if qk == "s" then do
+      let x ← flt
+      pure (Np.Query.scalar x)
+    else do
+      let xs ← fltArr
+      pure (Np.Query.array xs.toList)
+  match Gen.get_measurement grid.toList tbl q with
+  | none => return "none"
+  | some (.scalarR v) => return s!"sR {fmt v}"
+  | some (.scalarC v) => return s!"sC {fmt v.re} {fmt v.im}"
+  | some (.arrayR v) => return "aR " ++ joinF v
+  | some (.arrayC v) => return "aC " ++ joinF (v.flatMap (fun z => [z.re, z.im]))
+
+structure Info where
+  id : String
+  callable : Bool
+  ndarray : Bool
+  shape : List Nat
+
+def parseInfo (name st : String) : Option Info :=
+  if st == "E" then none
+  else if st == "C" then some ⟨name, true, false, []⟩
+  else if st.startsWith "A:" then
+    let dims := ((st.drop 2).toString.splitOn ",").filter (· ≠ "")
+    some ⟨name, false, true, dims.map (fun d => d.toNat?.getD 0)⟩
+  else some ⟨name, false, false, []⟩
+
+def opDf : M String := do
+  let n ← nat
+  let mut names : Array String := #[]
+  let mut table : List (String × Option Info) := []
+  for _ in [0:n] do
+    let name ← tok
+    let st ← tok
+    names := names.push name
+    table := (name, parseInfo name st) :: table
+  let getattr : String → Option Info := fun a => match Np.dictGet table a with
+    | some v => v
+    | none => none
+  match Gen.to_dataframe (V := Info) (·.callable) (·.ndarray) (·.shape) names.toList getattr with
+  | none => return "none"
+  | some (idx, cols) => return " ".intercalate (idx.id :: cols.map (·.1))
+
+def opDir : M String := do
+  let dflt ← strArr
+  let keys ← strArr
+  return " ".intercalate (Gen.result_dir dflt.toList keys.toList)
+
 def dispatch (op : String) : Option (M String) :=
   match op with
+  | "rq_assemble" => some opAssemble
+  | "rq_getattr" => some opGetattr
+  | "rq_meas" => some opMeas
+  | "rq_df" => some opDf
+  | "rq_dir" => some opDir
   | _ => none
 
 end Drv.ExtResultQueries
